@@ -1856,6 +1856,32 @@ Lemma late_roster_keeps_tree :
   delivered (kx 2 91) (r_events (step (only 72) (run (only 72) init late_roster_ops) (ping 1 2 91 1))) = false.
 Proof. vm_compute. repeat split; auto. discriminate. Qed.
 
+(* Two runs on one tree, one finished and one still running; a late (replayed) message for
+   the finished run; then the grace period of the tree store elapses ([elapse]). The branch
+   "instance already finished" of TransmitMsg re-arms the removal through cleanTreeStorage,
+   i.e. only when no live instance uses the tree: nothing is scheduled, the tree survives
+   the timeout, a tree request is answered and the running instance gets its messages. *)
+Definition late_done_ops : list op :=
+  [LocalTree T1; ping 1 1 10 1; ping 1 1 11 1; LocalDone (kx 1 10); ping 1 1 10 1].
+
+Lemma late_message_keeps_live_tree :
+  let s := run (only 71) init late_done_ops in
+  removal s = [] /\
+  lookup 1 (store (elapse s)) = Some (Have T1) /\
+  sent 3 (RRespTree 1 1 1) (r_events (step (only 71) (elapse s) (Recv 3 false false (MReqTree 1 1)))) = true /\
+  delivered (kx 1 11) (r_events (step (only 71) (elapse s) (ping 1 1 11 1))) = true /\
+  (* the late message alone (no other run on the tree) does schedule the removal: the tree
+     of a finished run is forgotten after the grace period, as intended *)
+  removal (run (only 71) init [LocalTree T1; ping 1 1 10 1; LocalDone (kx 1 10); ping 1 1 10 1]) = [1] /\
+  lookup 1 (store (elapse (run (only 71) init [LocalTree T1; ping 1 1 10 1; LocalDone (kx 1 10); ping 1 1 10 1]))) = None.
+Proof. vm_compute. repeat split; auto. Qed.
+
+Lemma elapse_clears_removal : forall s, removal (elapse s) = [].
+Proof. intros s. reflexivity. Qed.
+
+Lemma elapse_nothing_scheduled : forall s, removal s = [] -> store (elapse s) = store s.
+Proof. intros s Hr. unfold elapse. rewrite Hr. reflexivity. Qed.
+
 (* F73 (recorded, not repaired): the first answer to a pending tree request wins, whatever it
    contains; the root's answer is then ignored and the run that parked its message is dropped *)
 Lemma f73_forged_requested_tree :
